@@ -362,3 +362,288 @@ Lemma row_add_suffix k p : row_or_pad k (add_suffix p) = row_or_pad k (fst p).
 Proof. unfold row_or_pad, pad, add_suffix, krows, kcols. simpl. now rewrite map_length. Qed.
 Lemma map_fst_combine {A B} (l : list A) (l' : list B) : length l = length l' -> map fst (combine l l') = l.
 Proof. revert l'. induction l; destruct l'; simpl; intros; try discriminate; auto. f_equal. auto. Qed.
+(* ------------------------------------------------------------------ multimerge with repeated keys *)
+Lemma str_eqb_refl k : str_eqb k k = true.
+Proof. now apply str_eqb_eq. Qed.
+Lemma str_eqb_neq a b : a <> b -> str_eqb a b = false.
+Proof. intros H. destruct (str_eqb a b) eqn:E; auto. apply str_eqb_eq in E. contradiction. Qed.
+Lemma mem_false k l : mem k l = false <-> ~ In k l.
+Proof. rewrite <- mem_In. destruct (mem k l); split; congruence. Qed.
+
+Lemma in_dedup k l : In k (dedup l) <-> In k l.
+Proof.
+  induction l as [|x r IH]; simpl; [tauto|]. destruct (mem x r) eqn:E.
+  - rewrite IH. apply mem_In in E. split; auto. intros [->|H]; auto.
+  - simpl. now rewrite IH.
+Qed.
+Lemma nodup_dedup l : NoDup (dedup l).
+Proof.
+  induction l as [|x r IH]; simpl; [constructor|]. destruct (mem x r) eqn:E; auto.
+  constructor; auto. rewrite in_dedup. now apply mem_false.
+Qed.
+Lemma dedup_nodup l : NoDup l -> dedup l = l.
+Proof.
+  induction 1 as [|x r H N IH]; simpl; auto. rewrite (proj2 (mem_false x r) H). now rewrite IH.
+Qed.
+
+Lemma rows_of_nil k t : rows_of k t = [] <-> ~ In k (keys t).
+Proof.
+  unfold rows_of, keys. induction (krows t) as [|[k' v] r IH]; simpl; [tauto|].
+  destruct (str_eqb k' k) eqn:E; simpl.
+  - apply str_eqb_eq in E. subst. split; [discriminate|]. intros H. exfalso. apply H. auto.
+  - rewrite IH. split; [|tauto]. intros H [H1|H1]; [|tauto]. subst. rewrite str_eqb_refl in E. discriminate.
+Qed.
+Lemma rows_of_in k t : In k (keys t) <-> rows_of k t <> [].
+Proof.
+  rewrite rows_of_nil. destruct (in_dec (list_eq_dec N.eq_dec) k (keys t)); tauto.
+Qed.
+Lemma rows_or_pad_ne k t : rows_or_pad k t <> [].
+Proof. unfold rows_or_pad. destruct (rows_of k t); discriminate. Qed.
+Lemma rows_or_pad_in k t : In k (keys t) -> rows_or_pad k t = rows_of k t.
+Proof. rewrite rows_of_in. unfold rows_or_pad. destruct (rows_of k t); congruence. Qed.
+Lemma rows_or_pad_out k t : ~ In k (keys t) -> rows_or_pad k t = [pad t].
+Proof. rewrite <- rows_of_nil. unfold rows_or_pad. now intros ->. Qed.
+
+Lemma prod2_nil_l lb : prod2 [] lb = [].
+Proof. reflexivity. Qed.
+Lemma prod2_nil_r la : prod2 la [] = [].
+Proof. unfold prod2. induction la; simpl; auto. Qed.
+Lemma prod2_ne la lb : la <> [] -> lb <> [] -> prod2 la lb <> [].
+Proof. destruct la, lb; try congruence. discriminate. Qed.
+Lemma prod2_unit la : prod2 la [[]] = la.
+Proof. unfold prod2. induction la; simpl; auto. f_equal; [apply app_nil_r|exact IHla]. Qed.
+Lemma prod2_single x y : prod2 [x] [y] = [x ++ y].
+Proof. reflexivity. Qed.
+Lemma prod2_map ra lb lc : prod2 (map (app ra) lb) lc = map (app ra) (prod2 lb lc).
+Proof.
+  unfold prod2. induction lb as [|rb lb IH]; simpl; auto.
+  rewrite map_app, IH, map_map. f_equal. apply map_ext. intros x. now rewrite app_assoc.
+Qed.
+Lemma prod2_app la la' lb : prod2 (la ++ la') lb = prod2 la lb ++ prod2 la' lb.
+Proof. unfold prod2. induction la; simpl; auto. now rewrite IHla, app_assoc. Qed.
+Lemma prod2_assoc la lb lc : prod2 (prod2 la lb) lc = prod2 la (prod2 lb lc).
+Proof.
+  induction la as [|ra la IH]; auto.
+  change (prod2 (ra :: la) lb) with (map (app ra) lb ++ prod2 la lb).
+  rewrite prod2_app, IH, prod2_map. reflexivity.
+Qed.
+
+(* the rows of key k in a table built key group by key group *)
+Lemma group_filter (g : str -> list (list cell)) k k' :
+  map snd (filter (fun r : str * list cell => str_eqb (fst r) k) (map (pair k') (g k'))) =
+  if str_eqb k' k then g k' else [].
+Proof.
+  destruct (str_eqb k' k) eqn:E; induction (g k') as [|x l IH]; simpl; auto; rewrite E; simpl; now rewrite ?IH.
+Qed.
+Lemma rows_of_groups (g : str -> list (list cell)) cols ks k : NoDup ks ->
+  rows_of k (cols, flat_map (fun k' => map (pair k') (g k')) ks) = if mem k ks then g k else [].
+Proof.
+  unfold rows_of, krows. simpl. induction 1 as [|x r H N IH]; simpl; auto.
+  rewrite filter_app, map_app, group_filter, IH.
+  destruct (str_eqb k x) eqn:E.
+  - apply str_eqb_eq in E. subst. rewrite str_eqb_refl. simpl.
+    rewrite (proj2 (mem_false x r) H). apply app_nil_r.
+  - rewrite str_eqb_neq; [reflexivity|]. intros ->. rewrite str_eqb_refl in E. discriminate.
+Qed.
+
+Lemma nodup_join_m o a b : NoDup (join_keys_m o a b).
+Proof.
+  destruct o; unfold join_keys_m.
+  - apply nodup_app; auto using nodup_filter, nodup_dedup. intros x Hx Hf. apply filter_In in Hf. destruct Hf as [_ Hf].
+    apply (proj1 (in_dedup _ _)) in Hx. apply (proj2 (mem_In _ _)) in Hx. rewrite Hx in Hf. discriminate.
+  - apply nodup_filter, nodup_dedup.
+Qed.
+Lemma in_join_outer_m a b k : In k (join_keys_m true a b) <-> In k (keys a) \/ In k (keys b).
+Proof.
+  unfold join_keys_m. rewrite in_app_iff, filter_In, !in_dedup. split.
+  - intros [H|[H _]]; auto.
+  - intros [H|H]; auto. destruct (mem k (keys a)) eqn:E; [left; now apply mem_In|right; auto].
+Qed.
+Lemma in_join_inner_m a b k : In k (join_keys_m false a b) <-> In k (keys a) /\ In k (keys b).
+Proof. unfold join_keys_m. rewrite filter_In, mem_In, in_dedup. tauto. Qed.
+
+Lemma kcols_join2m o a b : kcols (join2m o a b) = kcols a ++ kcols b.
+Proof. reflexivity. Qed.
+Lemma rows_of_join2m o a b k :
+  rows_of k (join2m o a b) =
+  if mem k (join_keys_m o a b) then prod2 (rows_or_pad k a) (rows_or_pad k b) else [].
+Proof.
+  unfold join2m.
+  apply (rows_of_groups (fun k => prod2 (rows_or_pad k a) (rows_or_pad k b))). apply nodup_join_m.
+Qed.
+Lemma keys_join2m o a b k : In k (keys (join2m o a b)) <-> In k (join_keys_m o a b).
+Proof.
+  rewrite rows_of_in, rows_of_join2m. destruct (mem k (join_keys_m o a b)) eqn:E.
+  - apply mem_In in E. split; auto. intros _. apply prod2_ne; apply rows_or_pad_ne.
+  - apply mem_false in E. split; [congruence|contradiction].
+Qed.
+Lemma pad_join2m o a b : pad (join2m o a b) = pad a ++ pad b.
+Proof. unfold pad. rewrite kcols_join2m, app_length. apply repeat_app. Qed.
+
+(* outer: for EVERY key, the rows (or the padding row) of the join are the product of those of the operands *)
+Lemma rows_join2m_outer a b k :
+  rows_or_pad k (join2m true a b) = prod2 (rows_or_pad k a) (rows_or_pad k b).
+Proof.
+  destruct (in_dec (list_eq_dec N.eq_dec) k (join_keys_m true a b)) as [H|H].
+  - rewrite rows_or_pad_in by now apply keys_join2m.
+    rewrite rows_of_join2m. now rewrite (proj2 (mem_In _ _) H).
+  - rewrite rows_or_pad_out by now rewrite keys_join2m.
+    rewrite in_join_outer_m in H. rewrite (rows_or_pad_out k a), (rows_or_pad_out k b) by tauto.
+    rewrite pad_join2m. reflexivity.
+Qed.
+(* inner: for every key, the rows of the join are the product of the operands' rows (empty when one lacks the key) *)
+Lemma rows_join2m_inner a b k :
+  rows_of k (join2m false a b) = prod2 (rows_of k a) (rows_of k b).
+Proof.
+  rewrite rows_of_join2m. destruct (mem k (join_keys_m false a b)) eqn:E.
+  - apply mem_In, in_join_inner_m in E. destruct E as [Ea Eb]. now rewrite !rows_or_pad_in.
+  - apply mem_false in E. rewrite in_join_inner_m in E.
+    destruct (in_dec (list_eq_dec N.eq_dec) k (keys a)) as [Ha|Ha].
+    + assert (Hb : ~ In k (keys b)) by tauto. apply rows_of_nil in Hb. rewrite Hb. now rewrite prod2_nil_r.
+    + apply rows_of_nil in Ha. now rewrite Ha.
+Qed.
+
+Definition fold_join_m o r t := fold_left (join2m o) r t.
+Lemma fold_cols_m o r : forall t, kcols (fold_join_m o r t) = kcols t ++ concat (map kcols r).
+Proof.
+  induction r as [|b r IH]; intros t; simpl; [now rewrite app_nil_r|].
+  unfold fold_join_m in *. simpl. rewrite IH, kcols_join2m. now rewrite app_assoc.
+Qed.
+Lemma fold_keys_outer_m r : forall t k,
+  In k (keys (fold_join_m true r t)) <-> In k (keys t) \/ exists x, In x r /\ In k (keys x).
+Proof.
+  induction r as [|b r IH]; intros t k; unfold fold_join_m in *; simpl.
+  - split; auto. intros [H|[x [[] _]]]; auto.
+  - rewrite IH, keys_join2m, in_join_outer_m. split.
+    + intros [[H|H]|[x [H1 H2]]]; eauto.
+    + intros [H|[x [[->|H1] H2]]]; eauto.
+Qed.
+Lemma fold_keys_inner_m r : forall t k,
+  In k (keys (fold_join_m false r t)) <-> In k (keys t) /\ forall x, In x r -> In k (keys x).
+Proof.
+  induction r as [|b r IH]; intros t k; unfold fold_join_m in *; simpl.
+  - split; [intros H; split; auto; intros x []|tauto].
+  - rewrite IH, keys_join2m, in_join_inner_m. split.
+    + intros [[H1 H2] H3]. split; auto. intros x [->|Hx]; auto.
+    + intros [H1 H2]. split; auto.
+Qed.
+Lemma fold_rows_outer_m r : forall t k,
+  rows_or_pad k (fold_join_m true r t) = nprod (rows_or_pad k) (t :: r).
+Proof.
+  induction r as [|b r IH]; intros t k; unfold fold_join_m in *; simpl in *; [now rewrite prod2_unit|].
+  rewrite IH, rows_join2m_outer. apply prod2_assoc.
+Qed.
+Lemma fold_rows_inner_m r : forall t k,
+  rows_of k (fold_join_m false r t) = nprod (rows_of k) (t :: r).
+Proof.
+  induction r as [|b r IH]; intros t k; unfold fold_join_m in *; simpl in *; [now rewrite prod2_unit|].
+  rewrite IH, rows_join2m_inner. apply prod2_assoc.
+Qed.
+
+(* what "the join of all tables on the key" means when keys may repeat *)
+Definition merge_spec_m (outer : bool) (ts : list ktable) (res : ktable) : Prop :=
+  kcols res = concat (map kcols ts) /\
+  (forall k, In k (keys res) <->
+     if outer then exists t, In t ts /\ In k (keys t) else forall t, In t ts -> In k (keys t)) /\
+  (forall k, In k (keys res) -> rows_of k res = nprod (rows_or_pad k) ts) /\
+  (forall k, ~ In k (keys res) -> rows_of k res = []).
+
+Lemma nprod_ext f g ts : (forall t, In t ts -> f t = g t) -> nprod f ts = nprod g ts.
+Proof.
+  induction ts as [|t r IH]; simpl; auto. intros H. rewrite (H t), IH; auto.
+Qed.
+
+Lemma reduce_join_m_spec outer ts : ts <> [] ->
+  exists res, reduce_join_m outer ts = Ok res /\ merge_spec_m outer ts res.
+Proof.
+  destruct ts as [|t r]; [congruence|]. intros _.
+  exists (fold_join_m outer r t). split; [reflexivity|].
+  assert (K : forall k, In k (keys (fold_join_m outer r t)) <->
+     if outer then exists t0, In t0 (t :: r) /\ In k (keys t0) else forall t0, In t0 (t :: r) -> In k (keys t0)).
+  { intros k. destruct outer.
+    + rewrite fold_keys_outer_m. split.
+      * intros [H|[x [H1 H2]]]; [exists t|exists x]; simpl; auto.
+      * intros [x [[->|H1] H2]]; eauto.
+    + rewrite fold_keys_inner_m. split.
+      * intros [H1 H2] x [->|Hx]; auto.
+      * intros H. split; [apply H; simpl; auto|]. intros x Hx. apply H. simpl; auto. }
+  split; [|split; [exact K|split]].
+  - rewrite fold_cols_m. reflexivity.
+  - intros k H. destruct outer.
+    + rewrite <- fold_rows_outer_m. symmetry. now apply rows_or_pad_in.
+    + rewrite fold_rows_inner_m. apply nprod_ext. intros t0 Ht0. symmetry. apply rows_or_pad_in.
+      apply (proj1 (K k) H). exact Ht0.
+  - intros k H. now apply rows_of_nil.
+Qed.
+
+Lemma multimerge_m_kw F oi sufs outer ts : merge_on_kw F = true ->
+  multimerge_m F oi sufs outer ts = reduce_join_m outer (suffixed sufs ts).
+Proof.
+  intros H. unfold multimerge_m, suffixed. destruct sufs; auto. destruct oi; auto.
+  destruct ts as [|t [|t2 r]]; auto. now rewrite H.
+Qed.
+Lemma rows_of_add_suffix k p : rows_of k (add_suffix p) = rows_of k (fst p).
+Proof. reflexivity. Qed.
+Lemma rows_or_pad_add_suffix k p : rows_or_pad k (add_suffix p) = rows_or_pad k (fst p).
+Proof. unfold rows_or_pad, pad, add_suffix, rows_of, krows, kcols. simpl. now rewrite map_length. Qed.
+Lemma nprod_map (f g : ktable -> list (list cell)) (h : ktable * str -> ktable) l :
+  (forall p, f (h p) = g (fst p)) -> nprod f (map h l) = nprod g (map fst l).
+Proof. intros H. induction l as [|p l IH]; simpl; auto. now rewrite H, IH. Qed.
+
+(* ---- on tables with unique keys the many-to-many model IS the unique-key model *)
+Lemma rows_of_unique k t : NoDup (keys t) ->
+  rows_of k t = match assoc (krows t) k with Some r => [r] | None => [] end.
+Proof.
+  unfold rows_of, keys. induction (krows t) as [|[k' v] r IH]; simpl; auto. intros N. inversion N; subst.
+  destruct (str_eqb k' k) eqn:E; simpl; auto. apply str_eqb_eq in E. subst. f_equal.
+  change (rows_of k (@nil str, r) = []). apply rows_of_nil. exact H1.
+Qed.
+Lemma rows_or_pad_unique k t : NoDup (keys t) -> rows_or_pad k t = [row_or_pad k t].
+Proof.
+  intros N. unfold rows_or_pad, row_or_pad. rewrite (rows_of_unique k t N). destruct (assoc (krows t) k); auto.
+Qed.
+Lemma join2m_unique o a b : NoDup (keys a) -> NoDup (keys b) -> join2m o a b = join2 o a b.
+Proof.
+  intros Na Nb. unfold join2m, join2. f_equal.
+  assert (E : join_keys_m o a b = join_keys o a b) by (unfold join_keys_m, join_keys; now rewrite !dedup_nodup).
+  rewrite E. clear E. induction (join_keys o a b) as [|k l IH]; simpl; auto.
+  rewrite IH, !rows_or_pad_unique; auto.
+Qed.
+Lemma fold_join_m_unique o r : forall t, NoDup (keys t) -> Forall (fun x => NoDup (keys x)) r ->
+  fold_join_m o r t = fold_join o r t.
+Proof.
+  induction r as [|b r IH]; intros t Nt Nr; unfold fold_join_m, fold_join in *; simpl; auto.
+  inversion Nr; subst. rewrite join2m_unique by auto. apply IH; auto. rewrite keys_join2. now apply nodup_join.
+Qed.
+Lemma reduce_join_m_unique o ts : Forall (fun t => NoDup (keys t)) ts -> reduce_join_m o ts = reduce_join o ts.
+Proof.
+  destruct ts as [|t r]; auto. intros N. inversion N; subst. simpl. f_equal. now apply fold_join_m_unique.
+Qed.
+Lemma multimerge_m_unique F oi sufs o ts : Forall (fun t => NoDup (keys t)) ts ->
+  multimerge_m F oi sufs o ts = multimerge F oi sufs o ts.
+Proof.
+  intros N. unfold multimerge_m, multimerge.
+  assert (S : forall l : list str, Forall (fun t => NoDup (keys t)) (map add_suffix (combine ts l))).
+  { intros l. apply Forall_forall. intros x Hx. apply in_map_iff in Hx. destruct Hx as [[t s] [<- Hp]].
+    rewrite keys_add_suffix. simpl. apply in_combine_l in Hp. rewrite Forall_forall in N. now apply N. }
+  destruct sufs; [|now apply reduce_join_m_unique].
+  destruct oi; [now apply reduce_join_m_unique|].
+  destruct ts as [|t [|t2 r]]; auto. destruct (merge_on_kw F); auto. now apply reduce_join_m_unique.
+Qed.
+
+(* rows_of determines the multiset of (key, row) pairs of a table *)
+Definition row_dec : forall x y : list cell, {x = y} + {x <> y}.
+Proof. apply list_eq_dec. intros [a|] [b|]; try (right; discriminate); [|now left].
+  destruct (list_eq_dec N.eq_dec a b) as [->|H]; [now left|right; congruence]. Defined.
+Definition krow_dec : forall x y : str * list cell, {x = y} + {x <> y}.
+Proof. intros [k r] [k' r']. destruct (list_eq_dec N.eq_dec k k') as [->|H]; [|right; congruence].
+  destruct (row_dec r r') as [->|H]; [now left|right; congruence]. Defined.
+Lemma rows_of_count t k row : count_occ krow_dec (krows t) (k, row) = count_occ row_dec (rows_of k t) row.
+Proof.
+  unfold rows_of. induction (krows t) as [|[k' v] r IH]; [reflexivity|]. cbn [filter fst].
+  destruct (str_eqb k' k) eqn:E.
+  - apply str_eqb_eq in E. subst. cbn [map snd]. destruct (row_dec v row) as [->|H].
+    + rewrite !count_occ_cons_eq by reflexivity. now rewrite IH.
+    + rewrite !count_occ_cons_neq by congruence. exact IH.
+  - rewrite count_occ_cons_neq; [exact IH|]. intros H. inversion H; subst. rewrite str_eqb_refl in E. discriminate.
+Qed.
